@@ -3,11 +3,13 @@ pub mod common;
 pub mod rtok;
 pub mod tokh;
 pub mod c01;
+pub mod c03;
 pub mod c04;
 pub mod c11;
 pub mod c12;
 pub mod c13;
 pub mod c14;
+pub mod c15;
 pub mod c18;
 pub mod c20;
 pub mod dom;
@@ -19,6 +21,8 @@ use common::*;
 pub fn run(ctx: &Ctx) -> ! {
     match ctx.prop.as_str() {
         "C01" => c01::main(ctx, false),
+        "C03" => c03::main(ctx),
+        "C08" => c03::main_c08(ctx),
         "C04" => e2::main(ctx, e2::Prop::C04),
         "C05" => e2::main(ctx, e2::Prop::C05),
         "C06" => e2::main(ctx, e2::Prop::C06),
@@ -29,6 +33,7 @@ pub fn run(ctx: &Ctx) -> ! {
         "C12" => c12::main(ctx),
         "C13" => c13::main(ctx),
         "C14" => c14::main(ctx),
+        "C15" => c15::main(ctx),
         p => machinery(&format!("no check for {p}")),
     }
 }
@@ -36,6 +41,7 @@ pub fn replay(ctx: &Ctx, v: &serde_json::Value, witness: &str) {
     let check = v["check"].as_str().unwrap_or(&ctx.prop).to_string();
     match check.as_str() {
         "C01" => c01::replay(ctx, v, false),
+        "C03" | "C08" => c03::replay(ctx, v),
         "C04" => e2::replay(ctx, e2::Prop::C04, v),
         "C05" => e2::replay(ctx, e2::Prop::C05, v),
         "C06" => e2::replay(ctx, e2::Prop::C06, v),
@@ -46,6 +52,7 @@ pub fn replay(ctx: &Ctx, v: &serde_json::Value, witness: &str) {
         "C12" => c12::replay(ctx, witness),
         "C13" => c13::replay(ctx, witness),
         "C14" => c14::replay(ctx, v),
+        "C15" => c15::replay(ctx, v),
         p => machinery(&format!("no replay for {p}")),
     }
 }
